@@ -50,10 +50,25 @@ enum Ev {
 fn decode(n: Node) -> Ev {
     let tagged = match n {
         Node::Tagged { sender, seq, body, .. } => Some((sender, seq, body)),
-        Node::List(v) => v.into_iter().find_map(|x| match x {
-            Node::Tagged { sender, seq, body, .. } => Some((sender, seq, body)),
-            _ => None,
-        }),
+        Node::List(v) => {
+            let mut tagged = None;
+            let mut reply_to = vec![];
+            for x in v {
+                match x {
+                    Node::Tagged { sender, seq, body, .. } => tagged = Some((sender, seq, body)),
+                    Node::Tx(t) => reply_to.push(t),
+                    _ => {},
+                }
+            }
+            // answer through the sender that arrived *with this message*: the parent checks that
+            // the answers come out of the channel that was attached to exactly this message
+            if let Some((sender, seq, _)) = &tagged {
+                for t in reply_to {
+                    let _ = t.send(Node::U64(1000 * *sender as u64 + *seq as u64));
+                }
+            }
+            tagged
+        },
         _ => None,
     };
     match tagged {
@@ -288,9 +303,11 @@ fn run(case: &Case) -> Result<Outcome, Failure> {
     drop(ptx);
 
     // --- the survivor ----------------------------------------------------------------------------------
+    let (stx, srx) = ipc::channel::<Node>().map_err(|e| Failure::inconclusive(e.to_string()))?;
     if case.survivor {
         for s in 0..S_AFTER {
-            let r = tx.send(message(1, s, 1 + (s % 2) as u8, false, None));
+            // the survivor's messages carry their own attachment (a reply sender)
+            let r = tx.send(message(1, s, 1 + (s % 2) as u8, true, Some(&stx)));
             ensure!(r.is_ok(), "crash:survivor-send-failed", "a surviving sender could not send after another sender process died (k = {}): {:?}", k, r.map_err(|e| e.to_string()));
         }
     }
@@ -349,10 +366,27 @@ fn run(case: &Case) -> Result<Outcome, Failure> {
         Some(Ev::Closed) => {},
         other => fail!("crash:no-closure", "after all messages the closure was not reported: saw {:?} (all: {})", other, desc()),
     }
-    // the attachment of a delivered fatal message must work; of an undelivered one must be released
+    // attachments arrive with the message they were attached to: the survivor's reply senders
+    // answer on `srx`, the dying sender's (if its message was delivered) on `prx`
+    drop(stx);
+    if case.survivor {
+        for s in 0..S_AFTER {
+            match srx.try_recv() {
+                Ok(Node::U64(x)) if x == 1000 + s as u64 => {},
+                other => fail!("crash:attachment-of-other-message", "the reply through the sender attached to the survivor's message {} did not arrive on the survivor's reply channel ({:?}): the message carried someone else's attachment (all: {})", s, other.map(|n| node::rendered(&n)), desc()),
+            }
+        }
+    }
+    match srx.try_recv() {
+        Err(TryRecvError::IpcError(IpcError::Disconnected)) => {},
+        other => fail!("crash:attachment-unexpected", "survivor reply channel: {:?}", other.map(|n| node::rendered(&n))),
+    }
     if attach {
         if fatal_delivered {
-            // cannot reach the handles here (decode dropped them): liveness of the probe channel only
+            match prx.try_recv() {
+                Ok(Node::U64(x)) if x == before as u64 => {},
+                other => fail!("crash:attachment-of-other-message", "the delivered message of the dying sender did not carry its own attachment ({:?})", other.map(|n| node::rendered(&n))),
+            }
         }
         match prx.try_recv() {
             Err(TryRecvError::IpcError(IpcError::Disconnected)) => {},
